@@ -39,7 +39,10 @@ type StepRes struct {
 	// on a fresh value ("" when they are equal), and the batch dump when they differ
 	BatchDiff string   `json:"batch_diff,omitempty"`
 	Batch     []string `json:"batch,omitempty"`
-	Read      string   `json:"read,omitempty"` // found <hex path> | found ~ | nomodule
+	// process (clean or with errors): first difference between the trees ToEntry hands out for every
+	// module and submodule of the one value right after the run and those of the fresh twin (treesAfter)
+	TreeDiff string `json:"tree_diff,omitempty"`
+	Read     string `json:"read,omitempty"` // found <hex path> | found ~ | nomodule
 	// every op: first difference between the answers of the one value and of the SHADOW value - a
 	// second Modules value that runs the same history without the loads the one value refused -
 	// to the lookups a caller can make at any time ("" when equal)
@@ -102,6 +105,7 @@ func extendedDump(ms *yang.Modules, errs []error) (base, ext []string) {
 	base = lib.DumpOutcome(ms, errs)
 	ext = append(ext, base...)
 	if len(errs) > 0 {
+		// (the trees that ToEntry hands out after a run with errors are compared by treesAfter)
 		return base, ext
 	}
 	var walk func(e *yang.Entry)
@@ -345,6 +349,124 @@ func readsOf(ms *yang.Modules) []string {
 	return append(out, findsOf(ms)...)
 }
 
+// treesAfter is what a caller holds right after a Process, whether or not it reported errors (the
+// command-line tool prints the trees next to the errors): the tree ToEntry hands out for every
+// module and submodule, node by node with all fields (the resolved type with its union members,
+// defaults, units, identity base), the errors recorded on the trees, the identity values reachable
+// from the types of the nodes, the value list of every identity statement, and the resolved type of
+// every top-level typedef statement.  No model is needed to judge it: a fresh set that loaded the
+// same accepted texts and ran Process once must hand out the same - a run that FAILS to resolve
+// something must not hand out what an earlier generation resolved.
+func treesAfter(ms *yang.Modules) []string {
+	out := treesOf(ms)
+	seen := map[*yang.Entry]bool{}
+	var walk func(e *yang.Entry)
+	walk = func(e *yang.Entry) {
+		if e == nil || seen[e] {
+			return
+		}
+		seen[e] = true
+		if e.Type != nil {
+			if v := typeIdentityValues(e.Type, 0); strings.Trim(v, "()") != "" {
+				out = append(out, "T "+e.Path()+" "+v)
+			}
+		}
+		for _, k := range lib.SortedKeys(e.Dir) {
+			walk(e.Dir[k])
+		}
+		if e.RPC != nil {
+			walk(e.RPC.Input)
+			walk(e.RPC.Output)
+		}
+	}
+	for _, m := range allModules(ms) {
+		walk(yang.ToEntry(m))
+		for _, id := range m.Identities() {
+			out = append(out, "I "+m.Kind()+" "+m.FullName()+" "+id.Name+" "+identityList(id.Values))
+		}
+		for _, td := range m.Typedef {
+			out = append(out, "D "+lib.HexS(m.Kind()+":"+m.FullName())+" "+lib.HexS("typedef "+td.Name)+" type="+lib.HexS(lib.DumpYangType(td.YangType)))
+		}
+	}
+	return out
+}
+
+// readableType decodes a type= field (and the hex strings inside the type dump) for a message.
+func readableType(h string) string {
+	if h == "-" {
+		return "<none>"
+	}
+	b, err := lib.UnHex(h)
+	if err != nil {
+		return h
+	}
+	s := string(b)
+	// the strings inside a type dump are hex encoded once more
+	var sb strings.Builder
+	for i := 0; i < len(s); {
+		j := i
+		for j < len(s) && (s[j] >= '0' && s[j] <= '9' || s[j] >= 'a' && s[j] <= 'f') {
+			j++
+		}
+		if j-i >= 2 && (j-i)%2 == 0 && i > 0 && (s[i-1] == '=' || s[i-1] == '[' || s[i-1] == ',' || s[i-1] == ':') {
+			if d, err := lib.UnHex(s[i:j]); err == nil {
+				sb.WriteString(string(d))
+				i = j
+				continue
+			}
+		}
+		if j == i {
+			j = i + 1
+		}
+		sb.WriteString(s[i:j])
+		i = j
+	}
+	return sb.String()
+}
+
+// treeDiff names the first record in which the trees of the one value (a) and of the fresh twin (b)
+// differ, field by field when it is the same node on both sides.
+func treeDiff(a, b []string) string {
+	for i := 0; i < len(a) || i < len(b); i++ {
+		var x, y string
+		if i < len(a) {
+			x = a[i]
+		}
+		if i < len(b) {
+			y = b[i]
+		}
+		if x == y {
+			continue
+		}
+		fx, fy := strings.Fields(x), strings.Fields(y)
+		if len(fx) == len(fy) && len(fx) > 3 && fx[0] == fy[0] && fx[1] == fy[1] && fx[2] == fy[2] && (fx[0] == "N" || fx[0] == "D") {
+			mod, _ := lib.UnHex(fx[1])
+			path, _ := lib.UnHex(fx[2])
+			var parts []string
+			for k := 3; k < len(fx); k++ {
+				if fx[k] == fy[k] {
+					continue
+				}
+				kx, ky := fx[k], fy[k]
+				if strings.HasPrefix(kx, "type=") && strings.HasPrefix(ky, "type=") {
+					tx, ty := readableType(kx[5:]), readableType(ky[5:])
+					if len(tx) > 150 {
+						tx = tx[:150] + "..."
+					}
+					if len(ty) > 150 {
+						ty = ty[:150] + "..."
+					}
+					kx, ky = "type="+tx, "type="+ty
+				}
+				parts = append(parts, "history: "+kx+" | fresh set: "+ky)
+			}
+			return fmt.Sprintf("%s %s: %s", mod, path, strings.Join(parts, "; "))
+		}
+		return fmt.Sprintf("record %d: history: %s | fresh set: %s", i, rescorr.Readable(x), rescorr.Readable(y))
+	}
+	return ""
+}
+
 func nameMaps(ms *yang.Modules) map[string]*yang.Module {
 	out := map[string]*yang.Module{}
 	for k, v := range ms.Modules {
@@ -436,10 +558,15 @@ func runGo(h History) GoRes {
 			ferrs := fresh.Process()
 			_, fext := extendedDump(fresh, ferrs)
 			shadow.Process()
+			treesAfter(shadow)
 			// the queries a caller can make now, on both values (GetModule, which processes once
 			// more, at every third operation only)
 			ext = append(ext, queries(ms, errs, i%3 == 0)...)
 			fext = append(fext, queries(fresh, ferrs, i%3 == 0)...)
+			// the trees as they are handed out right now, also when the run reported errors (after the
+			// queries: GetModule has processed once more; a read is a perturbation too, so the shadow
+			// value is read in the same way above, right after its Process)
+			sr.TreeDiff = treeDiff(treesAfter(ms), treesAfter(fresh))
 			if d := rescorr.Diff(ext, fext); d != "" {
 				sr.BatchDiff = strings.Replace(d, "| model:", "| batch on a fresh set:", 1)
 				sr.BatchDiff = strings.Replace(sr.BatchDiff, "go:", "history:", 1)
@@ -623,6 +750,17 @@ func compare(o Outcome) (violations, disagreements []diff) {
 		if s.BatchDiff != "" {
 			violations = append(violations, diff{kind: "spec", goV: map[string]any{"history": s.Dump, "batch_on_fresh_set": s.Batch},
 				what: fmt.Sprintf("op %d (process): the one Modules value and a batch run of the accepted texts on a fresh set differ: %s", i, s.BatchDiff)})
+		}
+		if s.TreeDiff != "" {
+			how := "a clean run"
+			if rescorr.HasErrors(s.Dump) {
+				how = "a run that reported errors (the same errors on both sides)"
+				if s.BatchDiff != "" {
+					how = "a run that reported errors"
+				}
+			}
+			violations = append(violations, diff{kind: "spec", goV: s.TreeDiff,
+				what: fmt.Sprintf("op %d (process): after %s the trees ToEntry hands out differ from those of a fresh set that loaded the same accepted texts and ran Process once - the one value remembers an earlier generation: %s", i, how, s.TreeDiff)})
 		}
 		if s.ShadowDiff != "" {
 			violations = append(violations, diff{kind: "spec", goV: s.ShadowDiff,
@@ -888,6 +1026,18 @@ func main() {
 		}
 		hs = append(hs, h)
 	}
+	// histories in which a later good load DROPS what an earlier run resolved (shards of their own)
+	nDropped := 600
+	if f.Thorough() {
+		nDropped = 20000
+	}
+	for i := 0; i < nDropped; i++ {
+		h := genDropHistory(f.Rand(3000000+i), maxLen)
+		if i%4 == 3 {
+			h.Mode = "stmts"
+		}
+		hs = append(hs, h)
+	}
 	if only := os.Getenv("CORR_C18_ONLY"); only != "" {
 		// diagnosis only (not used by ./check): run the histories whose origin starts with this
 		var sel []History
@@ -899,6 +1049,9 @@ func main() {
 		hs = sel
 	}
 	distinct := lib.NewDistinct()
+	var nProcErrAfterClean, nProcCleanAfterErr int64
+	droppedKinds := map[string]int64{}
+	errStages := map[string]int64{}
 	var nOps, nProc, nProcClean, nProcErr, nRead, nReadCompared, nWalk, outside, crashes, reproc, afterReject, incremental, readsEverywhere, refusedAfterProc, readAfterRefused int64
 	faults := map[string]int64{}
 	loads := map[string]int64{}
@@ -952,6 +1105,12 @@ func main() {
 			}
 			// statistics
 			seenProc, seenReject, seenAccept, nontrivial := false, false, false, false
+			seenClean, seenErr := false, false
+			if k := strings.IndexByte(o.H.Origin, '/'); k > 0 && strings.HasPrefix(o.H.Origin, "dropped-definition") {
+				for _, kind := range strings.Split(o.H.Origin[k+1:], "+") {
+					droppedKinds[kind]++
+				}
+			}
 			lastWasProc := false
 			for i, op := range o.H.Ops {
 				nOps++
@@ -988,8 +1147,21 @@ func main() {
 					nProc++
 					if rescorr.HasErrors(s.Dump) {
 						nProcErr++
+						if seenClean {
+							// something that an earlier run of this value resolved fails now (or a
+							// new text is faulty): the trees after this run are compared with a fresh twin's
+							nProcErrAfterClean++
+							if strings.HasPrefix(o.H.Origin, "dropped-definition") {
+								errStages[errClassOf(s.Dump[0])]++
+							}
+						}
+						seenErr = true
 					} else {
 						nProcClean++
+						if seenErr {
+							nProcCleanAfterErr++
+						}
+						seenClean = true
 					}
 					if seenAccept && (seenProc || seenReject) {
 						nontrivial = true
@@ -1044,6 +1216,10 @@ func main() {
 	res.Distribution["process_clean"] = nProcClean
 	res.Distribution["process_with_errors"] = nProcErr
 	res.Distribution["process_right_after_process"] = reproc
+	res.Distribution["process_with_errors_after_a_clean_process_of_the_same_value"] = nProcErrAfterClean
+	res.Distribution["process_clean_after_a_process_with_errors_of_the_same_value"] = nProcCleanAfterErr
+	res.Distribution["dropped_definition_histories_by_what_the_late_revision_drops"] = droppedKinds
+	res.Distribution["dropped_definition_first_error_class_of_the_failing_run"] = errStages
 	res.Distribution["process_after_a_rejected_load"] = afterReject
 	res.Distribution["accepted_loads_after_a_process"] = incremental
 	res.Distribution["read_ops"] = nRead
